@@ -31,6 +31,12 @@ CHECKS = {
     text="TLC checks Hue.tla on all integer angles in +-2000 (thorough +-100000) and all 256 8-bit hues: normal forms exist and are unique up to the ends, equality is an equivalence compatible with whole turns, the 8-bit map is onto with wrap-around, and every relation rejects wrong answers (one turn off, one degree off, wrong radian factor). Every recorded call of the hue API (five hue types x f32/f64: signed/unsigned normal form, PartialEq incl. whole-turn shifts, radians, cartesian round trip, 8-bit conversion both ways, Add/Sub; 51k events quick, 546k thorough incl. a 19M-pattern f32 sweep compressed losslessly for the range clause) is validated by TLC against the model on the exact values.",
     ref="DESIGN.md section 4 C11",
     note=TRUST + "; exhaustive for integer angles x whole-turn shifts and all 256 codes, boundary/ulp neighbours of multiples of 180, powers of two and subnormals, seeded random elsewhere; tolerance 8 ulp of the stored angle (largest deviation on the pinned tree: 1 ulp); f32 cannot reveal degree/radian factor errors below 2^-20; SIMD hues belong to C17"),
+ "C12": dict(
+    technique="TLA+ grammar/permutation/table models (Hex.tla, Packed.tla, Named.tla); TLC exhaustive on small constants with case emission; full-space sweep of the real parser with lossless compression; TLC trace validation of every recorded event (TraceHex.tla)",
+    category="model_checking",
+    text="Parser: every string of <= 7 (quick) / <= 9 (thorough) symbols over a 10-symbol abstract alphabet (hex digits, non-hex, +, -, #, space, 2- and 3-byte characters) for all ten FromStr types is run through str::parse; the recording (every accepted string with its value, every panic, per-length counts) must be set-equal to the model's accepting set with equal values and no panic; structured long forms of 12-64 digits; formatting on lattices; all 2^24 Rgb<u8> format/parse round trips; all 4 RGBA + 2 luma channel orders on lattices and (thorough) all 2^32 packed values with each channel in the model's byte position; all 148 names, case variants and single-character edits against the reference table written in Named.tla.",
+    ref="DESIGN.md section 4 C12",
+    note=TRUST + "; exhaustive only within the stated alphabet and length bound (long forms are structured enumeration); other integer types than u8 are sampled for the format round trip; the named-colour reference table was written from the W3C list and cross-checked against svg_colors.txt and X11 rgb.txt"),
  "C13": dict(
     technique="TLA+ guard stack machine over symbolic conversion terms (InPlace.tla); TLC enumerates all guard programs, replayed on real buffers; TLC trace validation (in-place arrays bit-identical to the term evaluated out of place)",
     category="model_checking",
